@@ -733,6 +733,43 @@ func richest(d denomDoc) (string, int64) {
 	return best, bal
 }
 
+// reimportTF restarts the history's chain from an export: the tokenfactory state exported by the module's own
+// ExportGenesis is imported (InitGenesis) into a fresh application; the bank's part (balances and metadata of the factory
+// denominations, which belong to x/bank's genesis) is carried over by the harness.  Returns nil when some factory coins
+// are held by an account outside the history's holders (the harness could not carry them over faithfully).
+func reimportTF(t *testing.T, w *tfWorld, broke []string, fee int64) *tfWorld {
+	gs := w.App.TokenFactoryKeeper.ExportGenesis(w.Ctx)
+	for _, gd := range gs.FactoryDenoms {
+		sum := osmomath.ZeroInt()
+		for _, h := range w.holders {
+			sum = sum.Add(w.App.BankKeeper.GetBalance(w.Ctx, w.addr[h], gd.Denom).Amount)
+		}
+		if !sum.Equal(w.App.BankKeeper.GetSupply(w.Ctx, gd.Denom).Amount) {
+			return nil
+		}
+	}
+	w2 := newTFWorld(t, trAccts, trMods, []string{"hk"}, []string{"nohook"}, broke, fee)
+	w2.nTargets = w.nTargets
+	w2.App.TokenFactoryKeeper.InitGenesis(w2.Ctx, *gs)
+	modAddr := authtypes.NewModuleAddress(tftypes.ModuleName)
+	for _, gd := range gs.FactoryDenoms {
+		for _, h := range w.holders {
+			if b := w.App.BankKeeper.GetBalance(w.Ctx, w.addr[h], gd.Denom); b.IsPositive() {
+				if err := w2.App.BankKeeper.MintCoins(w2.Ctx, tftypes.ModuleName, sdk.NewCoins(b)); err != nil {
+					t.Fatal(err)
+				}
+				if err := w2.App.BankKeeper.SendCoins(w2.Ctx, modAddr, w2.addr[h], sdk.NewCoins(b)); err != nil {
+					t.Fatal(err)
+				}
+			}
+		}
+		if md, ok := w.App.BankKeeper.GetDenomMetaData(w.Ctx, gd.Denom); ok {
+			w2.App.BankKeeper.SetDenomMetaData(w2.Ctx, md)
+		}
+	}
+	return w2
+}
+
 func recordTF(t *testing.T, tw *tracelog.Writer, seed int64, nops int) {
 	rng := rand.New(rand.NewSource(seed))
 	fee := int64(0)
@@ -747,6 +784,21 @@ func recordTF(t *testing.T, tw *tracelog.Writer, seed int64, nops int) {
 	tw.Emit(map[string]any{"e": "cfg", "seed": seed, "fee": fee, "broke": broke, "gas": w.App.TokenFactoryKeeper.GetParams(w.Ctx).DenomCreationGasConsume,
 		"st": w.project(w.Ctx)})
 	for i := 0; i < nops; i++ {
+		if i == nops/2 || i == 3*nops/4 {
+			// the chain is restarted from an export: nothing the specification speaks of may move
+			// (in particular a renounced administration stays renounced)
+			if w2 := reimportTF(t, w, broke, fee); w2 != nil {
+				if os.Getenv("VERIF_DEBUG_REIMPORT") != "" {
+					b0, _ := json.Marshal(w.project(w.Ctx))
+					b1, _ := json.Marshal(w2.project(w2.Ctx))
+					if string(b0) != string(b1) {
+						fmt.Printf("REIMPORT-DIFF\n%s\n%s\n", b0, b1)
+					}
+				}
+				w = w2
+				tw.Emit(tfEvent{E: "reimport", Writes: []string{}, St: w.project(w.Ctx)})
+			}
+		}
 		st := w.project(w.Ctx)
 		var m specMsg
 		r := rng.Intn(100)
